@@ -126,7 +126,8 @@ Fixpoint next_token (nfuel : nat) (cfg : bcfg) (layp : option (ctxt -> layres)) 
           | Some lp, Some ls =>
               let cur := cx_state cx1 in
               let '(r, cx2) := lp (mkCtx (cx_pos cx1) (cx_span cx1) (cx_layout cx1) ls) in
-              let cx3 := mkCtx (cx_pos cx2) (cx_span cx2) (cx_layout cx2) cur in
+              (* state and span are saved before and restored after the layout parser runs *)
+              let cx3 := mkCtx (cx_pos cx2) (cx_span cx1) (cx_layout cx2) cur in
               match r with
               | Some (Some sl) =>
                   if 0 <? snd sl then
